@@ -226,6 +226,10 @@ def run_case(case):
                 c["refused_bitmap_metrics"] = 1  # CBDT's 8-bit metrics cannot hold this font's line metrics at 128 px: explicit refusal
                 return res
             v = dict(ctx, what=f"maximum_color failed (exit {rcode})", output=out[:2500])
+            if bitmaps and desc.get("zero_advance_colour_glyph") and "'H' format requires" in out and "_h_m_t_x" in out:
+                # F29: the glyph region of a zero-advance colour glyph has zero width; resvg then sizes the bitmap by
+                # the artwork alone and the donor's advance (em x px width / px height) can exceed 65535
+                v["mechanism"] = "F29-bitmaps-of-zero-advance-colour-glyph"
             if "pop from empty list" in out and "_copy_svg" in out and desc.get("non_colour_glyphs", 9) < 2:
                 # F26: the donor built from the generated SVGs always has .notdef and .space in front of its colour glyphs
                 v["mechanism"] = "F26-copy-svg-needs-two-spare-glyphs"
